@@ -43,7 +43,11 @@ def _jax():
 def make_system(rng, kind, n=5):
     """symmetric matrix with prescribed spectrum, rhs, start; integers/dyadics keep the arithmetic well conditioned"""
     q, _ = np.linalg.qr(rng.standard_normal((n, n)))
-    if kind == "hpd":
+    if kind == "hpd-large":      # enough iterations to pass the periodic recomputation of the residual (every 20 iterations) several times
+        n = 60
+        q, _ = np.linalg.qr(rng.standard_normal((n, n)))
+        ev = np.exp(rng.uniform(0, np.log(1e3), n))
+    elif kind == "hpd":
         ev = np.exp(rng.uniform(0, rng.choice([0.5, 2, 6]), n))
     elif kind == "indef":
         ev = np.exp(rng.uniform(0, 2, n)) * rng.choice([-1, 1], n)
@@ -65,6 +69,10 @@ def make_system(rng, kind, n=5):
         if kind == "diag-neg-first":
             j[1] = 0.1
     x0 = rng.standard_normal(n) * 0.5
+    if kind.startswith("hpd"):
+        # starting points in a definite relation to the solution: opposite to it, beyond it, (almost) at it
+        sol = np.linalg.solve(A, j)
+        x0 = [x0, -0.5 * sol, 2. * sol, sol * (1 + 1e-3), -2. * sol][int(rng.integers(0, 5))]
     return A, j, x0
 
 
@@ -182,7 +190,7 @@ def judge(A, j, x0, kw, kind, env, cfg5):
         events, final = build_trace(variant, o, A, j, x0, kw, kind)
         truth = dict(criterion=True, agree=True, nonposdef=True, notabove=True, sd=True)
         failed = o["raised"] is not None or o["info"] == -1
-        if kind == "hpd":
+        if kind.startswith("hpd"):
             if failed:
                 truth["criterion"] = False
             elif o["info"] == 0 and hres:
@@ -192,7 +200,14 @@ def judge(A, j, x0, kw, kind, env, cfg5):
                     truth["criterion"] = False
             oe, os_ = outs["eager"], outs["static"]
             if oe["raised"] is None and os_["info"] != -1:
-                if oe["info"] != os_["info"] or oe["nit"] != os_["nit"] or not np.allclose(oe["x"], os_["x"], rtol=1e-9, atol=1e-11 * scale):
+                if kind == "hpd-large":
+                    # dozens of iterations at condition number 1e3: the two programs round differently (fused operations), so the iteration at which
+                    # the criterion fires may shift by a few; same verdict, and the same solution at the level the criterion itself guarantees
+                    de = abs(energy(A, j, oe["x"]) - energy(A, j, os_["x"]))
+                    lim = 1e3 * kw["absdelta"] if habs else 1e-6 * scale
+                    if oe["info"] != os_["info"] or abs(oe["nit"] - os_["nit"]) > 0.15 * max(oe["nit"], os_["nit"]) + 2 or de > lim + 1e-10 * scale:
+                        truth["agree"] = False
+                elif oe["info"] != os_["info"] or oe["nit"] != os_["nit"] or not np.allclose(oe["x"], os_["x"], rtol=1e-9, atol=1e-11 * scale):
                     truth["agree"] = False
             elif (oe["raised"] is None) != (os_["info"] != -1):
                 truth["agree"] = False
@@ -217,7 +232,7 @@ def judge(A, j, x0, kw, kind, env, cfg5):
 
 
 def systems(ctx, rng, q):
-    kinds = ["hpd"] * (6 if q else 40) + ["indef"] * (3 if q else 20) + ["negdef"] * (1 if q else 8) + ["diag-neg-first"] * (1 if q else 3) + ["singular"] * (1 if q else 3)
+    kinds = ["hpd-large"] * (2 if q else 8) + ["hpd"] * (6 if q else 40) + ["indef"] * (3 if q else 20) + ["negdef"] * (1 if q else 8) + ["diag-neg-first"] * (1 if q else 3) + ["singular"] * (1 if q else 3)
     for k in kinds:
         yield k, make_system(rng, k)
 
@@ -269,8 +284,10 @@ def run(ctx):
             if habs:
                 kw["absdelta"] = 1e-9
             for maxiter in ("free", "limit", 2):
+                if kind == "hpd-large" and maxiter != "free":
+                    continue
                 if maxiter == "free":
-                    kw["maxiter"] = 12
+                    kw["maxiter"] = 12 if kind != "hpd-large" else 150
                 elif maxiter == "limit":
                     # convergence exactly at the iteration limit: the iteration count of the free run
                     if kind != "hpd" or last_nit is None or last_nit < 1 or last_nit >= 12:
